@@ -5,7 +5,7 @@ import vlib, suites
 from fhgen import *
 
 RULE = ("random add/remove/clone sequences over pairwise non-overlapping modules (adjacent, base below start, at 0 and "
-        "at 2^64-1, each presentation), probes at every range boundary +-1 as ip and ra, max_known_code_address after "
+        "at 2^64-1, images of 4 GiB and more, each presentation), probes at every range boundary +-1 as ip and ra, max_known_code_address after "
         "every change; distinct = (arch, presentation, position class of the probe, op history class)")
 ASSUMPTIONS = ["modules are pairwise non-overlapping with non-empty ranges (the statement's hypothesis)",
                "binary_search_by_key modelled by its contract on sorted duplicate-free keys"]
@@ -28,6 +28,12 @@ def generate(rng, tier):
             gap = rng.choice([0, 0, 1, 0x100])
             cands.append((pos + gap, pos + gap + ln))
             pos = pos + gap + ln
+        if rep % 4 >= 2:
+            # images of 4 GiB and more (relative addresses are 32 bits wide: only the first 4 GiB above the base are reachable)
+            big0 = 0x200000000 + 0x1000 * rng.below(16)
+            cands.append((big0, big0 + (1 << 32) + rng.choice([0, 0x2000, 0x10])))
+            if rng.chance(1, 2):
+                cands.append((0x800000000, 0x800000000 + (1 << 33) + 0x10))
         cands.append((M64 - 0x100, M64))
         if rng.chance(1, 2):
             cands.append((M64 - 0x300, M64 - 0x100))
@@ -40,7 +46,7 @@ def generate(rng, tier):
             pres = rng.choice(["hdr", "eh", "debug"])
             f = [dict(start=base_svma + (st - base_avma), len=en - st, rows=[(0, suites.std_row(arch, "frameless", k))])]
             s.module_dwarf("M%d" % i, st, en, base_avma, base_svma, pres, f, rng)
-            mods["M%d" % i] = dict(start=st, end=en, k=k, pres=pres)
+            mods["M%d" % i] = dict(start=st, end=en, k=k, pres=pres, base=base_avma)
         unws = {}
         s.add("new U0"); unws["U0"] = {}
         s.add("newcache C")
@@ -56,6 +62,11 @@ def generate(rng, tier):
             # every registered module's first and last byte, plus a few others
             chosen = [x for st, mid in cur.items() for x in (st, mods[mid]["end"] - 1)]
             chosen += [rng.choice(allpts) for _ in range(4)]
+            for st, mid in cur.items():
+                if mods[mid]["end"] - st >= (1 << 32):
+                    chosen += [st + o for o in (1, 0x1fff, 0x2000, 0x2001, (1 << 31), (1 << 32) - 0x1001, (1 << 32) - 1 - (st - mods[mid]["base"]))]
+            # beyond 4 GiB above a module's base address nothing can be looked up (documented width of relative addresses)
+            chosen = [a for a in chosen if not any(st <= a < mods[mid]["end"] and a - mods[mid]["base"] >= (1 << 32) for st, mid in cur.items())]
             for a in chosen:
                 kind = rng.choice(["ip", "ra"])
                 addr = a if kind == "ip" else a + 1
